@@ -79,6 +79,19 @@ def run(check):
         d = dotted(t) or ''
         if d.endswith('CACHE_SIZE_HARD_MAX') or d.endswith('CACHE_SIZE_LOW_WATERMARK'):
           found.setdefault(d.split('.')[-1], []).append(n)
+  for n in ast.walk(conf.tree):
+    if isinstance(n, ast.Call) and isinstance(n.func, ast.Attribute) and n.func.attr == 'setdefault' and n.args and \
+       isinstance(n.args[0], ast.Constant) and n.args[0].value in ('CACHE_SIZE_HARD_MAX', 'CACHE_SIZE_LOW_WATERMARK'):
+      f_ = check.repo.enclosing_function(conf, n)
+      r_lim.violate('derived limit set with setdefault', f_ if f_ is not None else 'carbon.conf:<module>', n,
+                    '%s is installed with setdefault(): once set from one configuration section it is not recomputed when a later '
+                    'section (the instance override) changes MAX_CACHE_SIZE or USE_FLOW_CONTROL, so the cache is bounded by a stale limit'
+                    % n.args[0].value)
+    if isinstance(n, ast.Assign):
+      for t in n.targets:
+        if isinstance(t, ast.Subscript) and isinstance(t.slice, ast.Constant) and t.slice.value in ('CACHE_SIZE_HARD_MAX', 'CACHE_SIZE_LOW_WATERMARK'):
+          found.setdefault(t.slice.value, []).append(n)
+
   def factor(v):
     txt = unparse(v).replace(' ', '')
     if txt.endswith('MAX_CACHE_SIZE'):
@@ -110,6 +123,13 @@ def run(check):
       r_lim.violate('hard limit factor', 'carbon.conf:<module>', n, 'with flow control %s the hard limit is `%s`, the '
                     'documented value is MAX_CACHE_SIZE%s' % ('on' if fc else 'off', unparse(n.value),
                                                                 ' * 1.05' if fc else ''), construct=norm(n))
+  for n in hm:
+    f_ = check.repo.enclosing_function(conf, n)
+    if f_ is not None and f_.name != 'postOptions':
+      upd = [c for c in ast.walk(f_.node) if isinstance(c, ast.Call) and isinstance(c.func, ast.Attribute) and c.func.attr in ('update', 'readFrom')]
+      if any(getattr(c, 'lineno', 0) > n.lineno for c in upd):
+        r_lim.violate('limit derived before the configuration is complete', f_, n, 'CACHE_SIZE_HARD_MAX is computed in %s before later '
+                      'configuration sections are read' % f_.qualname)
   lw = found.get('CACHE_SIZE_LOW_WATERMARK', [])
   for n in lw:
     f = factor(n.value)
